@@ -38,6 +38,12 @@ func main() {
 		out := fs.String("out", "one.ndjson", "output trace")
 		fs.Parse(os.Args[2:])
 		os.Exit(cmdRerun(*ev, *out))
+	case "varref":
+		fs := flag.NewFlagSet("varref", flag.ExitOnError)
+		in := fs.String("in", "", "calls (json)")
+		out := fs.String("out", "", "results (json)")
+		fs.Parse(os.Args[2:])
+		os.Exit(cmdVarRef(*in, *out))
 	case "replay":
 		fs := flag.NewFlagSet("replay", flag.ExitOnError)
 		gen := fs.String("gen", "", "generated steps (ndjson)")
